@@ -52,11 +52,26 @@ package engine
 //@ ensures implies(isnil(result2), len(result0) == len(result1))
 //@ ensures implies(!isnil(result2), isnil(result0) && isnil(result1))
 
-// splitIntoChunks: exactly numberOfBatches chunks; every cut position lies within the text.
+// splitIntoChunks: exactly numberOfBatches chunks that tile the text (property C08: the parallel parser is handed
+// every byte exactly once): every non-empty chunk is a substring of txt; chunk 0 starts at the text's start; a
+// non-empty chunk starts where its predecessor ends; empty chunks only follow at the end; the last non-empty chunk
+// ends at the text's end; a non-empty text has a non-empty first chunk.
+//@ spec rel(c string, t string) int = stroff(c) - stroff(t)
 //@ func splitIntoChunks
 //@ requires numberOfBatches >= 1
 //@ ensures len(result) == numberOfBatches
-//@ loop 1 invariant 0 <= pointer && pointer <= len(txt) && batchByteSize >= 0 && len(batches) == numberOfBatches
+//@ ensures forall(k, 0, len(result), implies(len(result[k]) > 0, samearr(result[k], txt) && rel(result[k], txt) >= 0 && rel(result[k], txt) + len(result[k]) <= len(txt)))
+//@ ensures implies(len(result[0]) > 0, rel(result[0], txt) == 0) && implies(len(txt) > 0, len(result[0]) > 0)
+//@ ensures forall(k, 1, len(result), implies(len(result[k]) > 0, len(result[k-1]) > 0 && rel(result[k], txt) == rel(result[k-1], txt) + len(result[k-1])))
+//@ ensures forall(k, 0, len(result), implies(len(result[k]) > 0 && (k == len(result) - 1 || len(result[k+1]) == 0), rel(result[k], txt) + len(result[k]) == len(txt)))
+//@ loop 1 invariant 0 <= pointer && pointer <= len(txt) && batchByteSize >= 0 && len(batches) == numberOfBatches && 0 <= i && i <= numberOfBatches
+//@ loop 1 invariant len(txt) - pointer <= (numberOfBatches - i) * batchByteSize
+//@ loop 1 invariant implies(i == 0, pointer == 0) && implies(len(txt) > 0, batchByteSize >= 1)
+//@ loop 1 invariant forall(k, 0, i, samearr(batches[k], txt) && rel(batches[k], txt) >= 0 && rel(batches[k], txt) + len(batches[k]) <= len(txt))
+//@ loop 1 invariant forall(k, 1, i, rel(batches[k], txt) == rel(batches[k-1], txt) + len(batches[k-1]))
+//@ loop 1 invariant implies(i >= 1, rel(batches[0], txt) == 0 && rel(batches[i-1], txt) + len(batches[i-1]) == pointer)
+//@ loop 1 invariant forall(k, i, numberOfBatches, len(batches[k]) == 0)
+//@ loop 1 invariant implies(batchByteSize >= 1, forall(k, 0, i, len(batches[k]) > 0))
 //@ loop 1 decreases numberOfBatches - i
 //@ loop 2 invariant nextPointer >= pointer + batchByteSize && (nextPointer <= len(txt) || nextPointer == pointer + batchByteSize)
 //@ loop 2 decreases len(txt) - nextPointer
